@@ -23,6 +23,13 @@ def gen_spec(r):
     spec['assets'] = [a for c in cats for a in spec['assets'] if a['category'] == c]
     spec['categories'] = [c for c in spec['categories'] if any(a['category'] == c['name'] for a in spec['assets'])] or spec['categories'][:1]
     if r.random() < 0.5: spec['defines']['extra'] = 'value with spaces'
+    if spec['associations'] and r.random() < 0.35:
+        # the same association name between the same two asset types once more, with other fields / multiplicities
+        # (legal MAL; the compiler must keep both declarations)
+        import copy as _c
+        d = _c.deepcopy(r.choice(spec['associations']))
+        d['leftField'] += 'b'; d['rightField'] += 'b'; d['rightMultiplicity'] = {'min': 1, 'max': 1}
+        spec['associations'].append(d)
     for a in spec['assets']:
         for s in a['attackSteps']:
             if s['ttc'] is not None and r.random() < 0.4 and s['type'] != 'defense':
